@@ -68,6 +68,11 @@ func concretise(class string, rng *rand.Rand, allowNUL bool) string {
 		return " " + core + " "
 	case "long64k":
 		return strings.Repeat(core+" ", 64*1024/(len(core)+1))
+	case "unicode_blank":
+		return []string{"\u3000\u00a0\u2003", "\u00a0", "\u2028\u3000", "\u3000 \t"}[rng.Intn(4)]
+	case "long_multibyte":
+		// > 64 KiB of 3-byte characters behind a 1-byte prefix: read boundaries fall inside characters
+		return "x" + strings.Repeat("漢字かな交じり文", 150*1024/24) + "é"
 	case "over_limit":
 		return "x" + strings.Repeat(core+" ", 11*1024*1024/(len(core)+1)) + "y"
 	case "html200k":
@@ -254,7 +259,7 @@ func (t *textRunner) runCase(c textCase, idx int, seed int64) (*Obs, error) {
 	o := &Obs{Tag: "e8", Cmd: Cmd{"name": "text", "mode": "json", "case": c, "sample": sample, "len": len(s)},
 		Reply: Reply{IDs: []string{}, Edges: [][2]string{}, Pruned: []string{}}, Out: outFacts{JSON: true, Values: 1},
 		Pre: map[string]any{}, Post: map[string]any{}, LogPre: []map[string]any{}, LogPost: []map[string]any{}, Gone: []string{},
-		Readable: true, ListShow: true, Facts: map[string]any{"rel": rel, "rel_after": relAfter}, Only: []string{"C17_roundtrip", "C17_stays", "C17_accepted", "C17_overlimit"},
+		Readable: true, ListShow: true, Facts: map[string]any{"rel": rel, "rel_after": relAfter}, Only: []string{"C17_roundtrip", "C17_stays", "C17_accepted", "C17_overlimit", "C17_blank"},
 		Procs: []procRec{}, Readers: []readerRec{}, After: []afterRec{},
 		Text: map[string]any{"case": c, "rel": rel, "rel_after": relAfter, "store_readable": readable, "store_unchanged": unchanged}}
 	return o, nil
